@@ -370,45 +370,49 @@ decode_tags!(c10_decode_total_unknown255, [255]);
 //  variant on each early-return path. The two `Vec::with_capacity(count read from the file)` sites of the
 //  array arm are therefore OUTSIDE the claim; see DESIGN.md section 6, S5.)
 
-// ---------------------------------------------------------------------------------------
-// decode_snapshot framing (magic, version, count) on short / truncated files
-// ---------------------------------------------------------------------------------------
-use crate::common::fixed_random_state;
+// (probed, not registered: decode_snapshot on files of 0, 3 and 10 bytes exhausts 12 GB although every read
+//  folds to a constant; the framing of the snapshot file is therefore OUTSIDE the claim - only decode_value is in.)
+use crate::common::{empty_format, fixed_random_state};
 
-fn snapshot_one<const N: usize>() {
-    let buf: [u8; N] = kani::any();
-    let r = decode_snapshot_bytes(&buf);
-    if N < 10 { assert!(r.is_err(), "C10: a file shorter than the 10-byte header was accepted"); }
-    if let Ok(s) = &r {
-        assert!(buf[0] == b'S' && buf[1] == b'T' && buf[2] == b'R' && buf[3] == b'N', "C10: wrong magic accepted");
-        assert!(buf[4] == 1 && buf[5] == 0, "C10: unsupported version accepted");
-    }
-    std::mem::forget(r);
+// ---------------------------------------------------------------------------------------
+// K1 for composite values (concrete shape, symbolic content)
+// ---------------------------------------------------------------------------------------
+use smol_str::SmolStr;
+
+fn ascii3() -> ([u8; 3], usize) {
+    let b: [u8; 3] = kani::any();
+    let n: usize = kani::any();
+    kani::assume(n <= 3 && b[0] < 0x80 && b[1] < 0x80 && b[2] < 0x80);
+    (b, n)
 }
 
-// @verif prop=C10 kernel=K2 tiers=quick,thorough timeout=1800 unwind=1 stubbing=yes mem=12 loops=memcmp:6,compare_bytes:6,decode_snapshot:2
-// @verif what=decode_snapshot on every file of 0..=10 bytes: Ok/Err, never a panic or out-of-bounds slice (empty and truncated files left by an interrupted save), magic and version enforced
-// @verif fns=retain::{decode_snapshot,RetainReader::{read_bytes,read_u16,read_u32}}
-// @verif bound=all byte strings of each length 0..=10 (length concrete per call site, content symbolic); with 10 bytes only count = 0 decodes
-// @verif stub=std::hash::RandomState::new -> fixed keys; alloc::vec::Vec::<T>::with_capacity -> allocation monitor
+// @verif prop=C10 kernel=K1 tiers=quick,thorough timeout=2400 unwind=1 stubbing=yes mem=16 loops=run_utf8_validation:5,from_utf8:5,memcmp:6,compare_bytes:6,c10:5,new:26,new_inline:26,Iterator:5,to_vec:5,clone:5,extend:5
+// @verif what=retain codec round trip for STRING and WSTRING values of 0..=3 ASCII bytes and for ENUM values (type name, variant name, numeric value): decode(encode(v)) equals v and consumes exactly the encoded bytes
+// @verif fns=retain::{encode_value,decode_value,encode_string,RetainReader::read_string}
+// @verif bound=strings of 0..=3 symbolic ASCII bytes; enum names of 1 and 2 concrete characters, numeric value any i64
+// @verif stub=alloc::vec::Vec::<T>::with_capacity -> allocation monitor; alloc::fmt::format -> empty String
 #[kani::proof]
-#[kani::stub(std::hash::RandomState::new, fixed_random_state)]
 #[kani::stub(std::vec::Vec::with_capacity, monitored_with_capacity)]
-fn c10_decode_snapshot_short_files() {
-    let sel: u8 = kani::any();
-    match sel {
-        0 => snapshot_one::<0>(), 1 => snapshot_one::<1>(), 2 => snapshot_one::<2>(), 3 => snapshot_one::<3>(),
-        4 => snapshot_one::<4>(), 5 => snapshot_one::<5>(), 6 => snapshot_one::<6>(), 7 => snapshot_one::<7>(),
-        8 => snapshot_one::<8>(), 9 => snapshot_one::<9>(), _ => {
-            let mut buf: [u8; 10] = kani::any();
-            buf[6] = 0; buf[7] = 0; buf[8] = 0; buf[9] = 0; // count = 0
-            let r = decode_snapshot_bytes(&buf);
-            let good = buf[0] == b'S' && buf[1] == b'T' && buf[2] == b'R' && buf[3] == b'N' && buf[4] == 1 && buf[5] == 0;
-            assert!(r.is_ok() == good, "C10: header acceptance differs from magic STRN + version 1");
-            kani::cover!(r.is_ok());
-            std::mem::forget(r);
+#[kani::stub(alloc::fmt::format, empty_format)]
+fn c10_roundtrip_strings_enum() {
+    let k: u8 = kani::any();
+    match k % 3 {
+        0 => {
+            let (b, n) = ascii3();
+            let s = unsafe { core::str::from_utf8_unchecked(&b[..n]) };
+            roundtrip!(Value::String(SmolStr::new(s)), |back| matches!(back, Value::String(y) if y.as_str().as_bytes() == &b[..n]))
+        }
+        1 => {
+            let (b, n) = ascii3();
+            let s = unsafe { core::str::from_utf8_unchecked(&b[..n]) };
+            roundtrip!(Value::WString(s.to_string()), |back| matches!(back, Value::WString(y) if y.as_bytes() == &b[..n]))
+        }
+        _ => {
+            let x: i64 = kani::any();
+            roundtrip!(Value::Enum(EnumValue { type_name: SmolStr::new_inline("T"), variant_name: SmolStr::new_inline("Va"), numeric_value: x }),
+                |back| matches!(back, Value::Enum(e) if e.numeric_value == x && e.type_name.as_str() == "T" && e.variant_name.as_str() == "Va"))
         }
     }
-    kani::cover!(sel == 0);
-    kani::cover!(sel == 3);
+    kani::cover!(k % 3 == 0);
+    kani::cover!(k % 3 == 2);
 }
